@@ -1000,6 +1000,21 @@ func (scProbe) Resolve(f *ggql.Field, _ map[string]interface{}) (interface{}, er
 	return nil, nil
 }
 
+// scApp: a root object found by reflection whose fields do not carry the names of the operations: the
+// schema's fields are bound to them with RegisterType / RegisterField after every accepted load, so
+// the requests of the snapshot depend on bindings that sit on the schema object
+type scApp struct {
+	Q scOpObj
+	M scOpObj
+}
+
+func scBind(root *ggql.Root) {
+	defer func() { _ = recover() }()
+	_ = root.RegisterType(&scApp{}, "schema")
+	_ = root.RegisterField("schema", "query", "Q")
+	_ = root.RegisterField("schema", "mutation", "M")
+}
+
 type scOpObj struct{}
 
 func (scOpObj) Resolve(f *ggql.Field, _ map[string]interface{}) (interface{}, error) {
@@ -1045,7 +1060,7 @@ func scExec(input sx.S) sx.S {
 	if l[0].(string) != "docs" && l[0].(string) != "wfdocs" {
 		panic("docs expected")
 	}
-	root := ggql.NewRoot(scProbe{})
+	root := ggql.NewRoot(&scApp{})
 	out := []sx.S{"loads"}
 	var accepted []scItem
 	for _, d := range l[1:] {
@@ -1092,6 +1107,9 @@ func scExec(input sx.S) sx.S {
 		same := []sx.S{"same"}
 		for i := range before {
 			same = append(same, sx.A(before[i] == after[i]))
+		}
+		if err == nil {
+			scBind(root)
 		}
 		if err == nil {
 			// the order in which the root lists its types and directives against that of a fresh root
